@@ -305,23 +305,153 @@ func AtomicFields(obj interface{}, tag string, fields ...string) {}
 // MonitorOn switches the lock-discipline monitor on or off. Native no-op.
 func MonitorOn(on bool) {}
 
-var spawned []func()
+// ---------------------------------------------------------------------------------------
+// Native twin of the engine's cooperative scheduler (C19). Spawn registers a goroutine body;
+// Join runs all bodies one at a time, passing a baton; a body yields at every mutex and
+// sync/atomic operation (the real sync primitives of the repo packages are swapped for
+// zz_verif/vsync and zz_verif/vatomic by the native build's overlay, which call back here),
+// and the scheduler's pick at every yield is read from the tape ("__sched" entries the engine
+// recorded), so a native run follows exactly the interleaving of the explored path.
 
-// Spawn registers a goroutine body; Join runs all registered bodies concurrently and waits.
-// Under the engine the bodies run under a cooperative scheduler that explores every
-// interleaving at synchronisation-operation granularity.
-func Spawn(f func()) { spawned = append(spawned, f) }
+// LockState is the modelled state of one RWMutex.
+type LockState struct {
+	Writer  bool
+	Readers int
+}
+
+type vthread struct {
+	id      int
+	f       func()
+	resume  chan struct{}
+	started bool
+	done    bool
+	waitFor *LockState
+	waitOp  string
+}
+
+type vsched struct {
+	threads  []*vthread
+	current  *vthread
+	mainWake chan struct{}
+	running  bool
+	abort    interface{}
+	aborted  bool
+}
+
+var sched *vsched
+
+func Spawn(f func()) {
+	if sched == nil {
+		sched = &vsched{mainWake: make(chan struct{})}
+	}
+	sched.threads = append(sched.threads, &vthread{id: len(sched.threads), f: f, resume: make(chan struct{})})
+}
+
+func lockAvailable(st *LockState, op string) bool {
+	switch op {
+	case "Lock":
+		return !st.Writer && st.Readers == 0
+	case "RLock":
+		return !st.Writer
+	}
+	return true
+}
 
 func Join() {
-	done := make(chan struct{}, len(spawned))
-	for _, f := range spawned {
-		go func(f func()) {
-			defer func() { done <- struct{}{} }()
-			f()
-		}(f)
+	s := sched
+	if s == nil {
+		return
 	}
-	for range spawned {
-		<-done
+	s.running = true
+	defer func() {
+		s.running = false
+		sched = nil
+	}()
+	for {
+		var runnable []*vthread
+		alive := 0
+		for _, t := range s.threads {
+			if t.done {
+				continue
+			}
+			alive++
+			if t.waitFor != nil && !lockAvailable(t.waitFor, t.waitOp) {
+				continue
+			}
+			runnable = append(runnable, t)
+		}
+		if alive == 0 {
+			return
+		}
+		if len(runnable) == 0 {
+			panic(stopTape{"native replay: every goroutine is blocked on a lock"})
+		}
+		pick := 0
+		if len(runnable) > 1 {
+			pick = Choose("__sched", len(runnable))
+		}
+		t := runnable[pick]
+		s.current = t
+		if !t.started {
+			t.started = true
+			go func(t *vthread) {
+				defer func() {
+					if r := recover(); r != nil {
+						s.abort, s.aborted = r, true
+					}
+					t.done = true
+					s.mainWake <- struct{}{}
+				}()
+				<-t.resume
+				t.f()
+			}(t)
+		}
+		t.resume <- struct{}{}
+		<-s.mainWake
+		if s.aborted {
+			// the other bodies stay parked for good; the process is short-lived
+			panic(s.abort)
+		}
 	}
-	spawned = nil
+}
+
+// SchedActive reports whether the caller runs as a scheduled goroutine body.
+func SchedActive() bool { return sched != nil && sched.running && sched.current != nil }
+
+// SchedYield hands the baton back to the scheduler (before every sync/atomic operation).
+func SchedYield() {
+	if !SchedActive() {
+		return
+	}
+	t := sched.current
+	sched.mainWake <- struct{}{}
+	<-t.resume
+}
+
+// SchedLockOp is a mutex operation of a scheduled body: yield first, then wait (yielding)
+// while the lock is unavailable, then update the modelled lock state.
+func SchedLockOp(st *LockState, op string) {
+	t := sched.current
+	SchedYield()
+	for !lockAvailable(st, op) {
+		t.waitFor, t.waitOp = st, op
+		SchedYield()
+	}
+	t.waitFor = nil
+	switch op {
+	case "Lock":
+		st.Writer = true
+	case "Unlock":
+		if !st.Writer {
+			panic("sync: Unlock of unlocked RWMutex")
+		}
+		st.Writer = false
+	case "RLock":
+		st.Readers++
+	case "RUnlock":
+		if st.Readers == 0 {
+			panic("sync: RUnlock of unlocked RWMutex")
+		}
+		st.Readers--
+	}
 }
